@@ -316,11 +316,13 @@ func planC16(p *propDef, tier string, seed uint64, n int) []*Case {
 			return sc
 		}
 		pr := &pair{a: mk(N), b: mk(4 * N), sa: s}
-		res, _ := runCase(&Case{Idx: 920000 + i, Seed: s, Scenario: pr.a, Label: "N"}, false, nil, "a")
-		if res.rec != nil && res.rec.Summary != nil {
-			if f, ok := res.rec.Summary["footprint"]; ok {
-				b, _ := json.Marshal(f)
-				pr.fp = string(b)
+		for try := 0; try < 3 && pr.fp == ""; try++ { // a run lost to the wall-clock watchdog on a loaded machine is repeated
+			res, _ := runCase(&Case{Idx: 920000 + i, Seed: s, Scenario: pr.a, Label: "N"}, false, nil, "a")
+			if res.rec != nil && res.rec.Summary != nil {
+				if f, ok := res.rec.Summary["footprint"]; ok {
+					b, _ := json.Marshal(f)
+					pr.fp = string(b)
+				}
 			}
 		}
 		pairs[i] = pr
